@@ -178,6 +178,22 @@ both orders succeed -/
 example : (absorb2 .fixed {} (Tracer.new "$" "$") wRec wMap).isOk = true ∧
     (absorb2 .fixed {} (Tracer.new "$" "$") wMap wRec).isOk = true := by decide
 
+/-- the equivalence is not equality: the two orders of `{a}` and `{b, a}` give different, equivalent tracers -/
+example : ∃ a b, absorb2 .fixed {} (Tracer.new "$" "$") (zrec [("a", zi 1)]) (zrec [("b", .str "s"), ("a", zi 2)]) = .ok a ∧
+    absorb2 .fixed {} (Tracer.new "$" "$") (zrec [("b", .str "s"), ("a", zi 2)]) (zrec [("a", zi 1)]) = .ok b ∧
+    a ≠ b ∧ TracerEquiv a b := by
+  have hne : absorb2 .fixed {} (Tracer.new "$" "$") (zrec [("a", zi 1)]) (zrec [("b", .str "s"), ("a", zi 2)]) ≠
+      absorb2 .fixed {} (Tracer.new "$" "$") (zrec [("b", .str "s"), ("a", zi 2)]) (zrec [("a", zi 1)]) := by decide
+  rcases absorb_comm {} rfl (reachable_new {} "$" "$") (zrec [("a", zi 1)]) (zrec [("b", .str "s"), ("a", zi 2)]) with
+    ⟨a, b, h1, h2, he, _, _⟩ | ⟨h1, _⟩
+  · exact ⟨a, b, h1, h2, fun e => hne (by rw [h1, h2, e]), he⟩
+  · have : (absorb2 .fixed {} (Tracer.new "$" "$") (zrec [("a", zi 1)]) (zrec [("b", .str "s"), ("a", zi 2)])).isOk = true := by
+      decide
+    rw [this] at h1; cases h1
+
+/-- `absorb_idem` / `absorbAll_repeat` are not vacuous: a nested sample is absorbed at the root -/
+example : (absorb .fixed {} (Tracer.new "$" "$") (zrec [("a", zrec [("p", zseq [zi 1, .none])])])).isOk = true := by decide
+
 /-- `fromSamples_perm` / `fromSamples_repeat` are not vacuous: the two orders of a struct and a map sample (different
 field order) both trace successfully -/
 example : (fromSamples .fixed {} (itemsOf [wRec, wMap])).isOk = true ∧ [wRec, wMap].Perm [wMap, wRec] :=
